@@ -389,6 +389,16 @@ func emit(c *fw.Ctx, u *uni, rn, rv, tag string) {
 }
 
 func classify(oracle string, ops, res []string) string {
+	if oracle == "ALL" && len(ops) == 1 {
+		if c, ok := loadCase(ops[0], res[0]); ok {
+			for _, o := range oracles {
+				if c.verdict(o) != "" {
+					oracle = o
+					break
+				}
+			}
+		}
+	}
 	if (oracle != "P2" && oracle != "P3") || len(ops) != 1 {
 		return ""
 	}
